@@ -28,6 +28,28 @@ def _is_intlike(v):
     return _isinstance(v, (SymInt, _int)) and not False
 
 
+def _select(cells, base, i):
+    """content at symbolic offset i: explicit cells layered over the base function.  Runs of equal
+    concrete cells (padding) are folded into range tests to keep the term small."""
+    r = base(i)
+    if not cells:
+        return r
+    keys = sorted(cells)
+    k = 0
+    while k < len(keys):
+        v = cells[keys[k]]
+        j = k
+        if _isinstance(v, _int):
+            while j + 1 < len(keys) and keys[j + 1] == keys[j] + 1 and _isinstance(cells[keys[j + 1]], _int) and cells[keys[j + 1]] == v:
+                j += 1
+        if j > k:
+            r = z3.If(z3.And(i >= keys[k], i <= keys[j]), z3.IntVal(v), r)
+        else:
+            r = z3.If(i == keys[k], sx._zi(v), r)
+        k = j + 1
+    return r
+
+
 class TwinBuffer:
     """same API as aioquic._buffer.Buffer"""
 
@@ -64,23 +86,13 @@ class TwinBuffer:
         if _isinstance(i, _int):
             c = self._cells.get(i)
             return sx._zi(c) if c is not None else self._base(z3.IntVal(i))
-        if self._cells:
-            self._flush()
-        return self._base(i)
+        return _select(self._cells, self._base, i)
 
     def _flush(self):
-        """fold the explicit cells into the content function (needed for symbolic offsets)"""
-        cells, base = self._cells, self._base
-        keys = sorted(cells)
+        """fold the explicit cells into the content function (before a write at a symbolic offset)"""
+        cells, base = dict(self._cells), self._base
         self._cells = {}
-
-        def get(i):
-            r = base(i)
-            for k in keys:
-                r = z3.If(i == k, sx._zi(cells[k]), r)
-            return r
-
-        self._base = get
+        self._base = lambda i: _select(cells, base, i)
 
     def _view(self, start, length):
         """bytes [start, start+length) as SymBytes"""
@@ -90,14 +102,20 @@ class TwinBuffer:
         if _isinstance(length, SymInt):
             v = z3.simplify(length.e)
             length = v.as_long() if z3.is_int_value(v) else length
-        if _isinstance(start, _int) and _isinstance(length, _int) and length <= 4096:
+        if _isinstance(start, _int) and _isinstance(length, _int) and length <= 70000:
             cells = self._cells
             return SymBytes.from_items([cells[start + k] if (start + k) in cells else sx._norm_item(z3.simplify(self._base(z3.IntVal(start + k)))) for k in range(length)])
-        if self._cells:
-            self._flush()
-        g = self._base
+        cells, base = dict(self._cells), self._base  # snapshot: later writes must not show through
         sz = _z(start)
-        return SymBytes(length, lambda i: g(i + sz))
+
+        def get(i):
+            j = z3.simplify(i + sz)
+            if z3.is_int_value(j):
+                c = cells.get(j.as_long())
+                return sx._zi(c) if c is not None else base(j)
+            return _select(cells, base, j)
+
+        return SymBytes(length, get)
 
     @property
     def data(self):
